@@ -31,6 +31,19 @@ def family():
                            "b": {"k": "retv", "v": ["reg", 1]}}}
     f["echo_loop"] = {"k": "for", "c": {"id": 0, "acts": [], "e": ["lt", 2, 50]}, "p": None,
                       "b": {"k": "bindrecv", "v": ["reg", 2], "id": 0, "acts": [["recvto", 2], ["log", 3]], "body": N}}
+    # a return value produced inside a loop: in an iteration that has not suspended (first iteration, or a later one reached
+    # after a resume), and after the yield of the same iteration
+    f["loop_ret_first"] = {"k": "for", "c": None, "p": None, "b": {"k": "retv", "v": ["const", 7]}}
+    f["yield_then_loop_ret"] = bind(["const", 1], {"k": "for", "c": None, "p": None,
+                                                    "b": {"k": "delay", "id": 0, "acts": [["log", 6]], "body": {"k": "retv", "v": ["const", 9]}}})
+    brk = {"k": "sig", "t": "break"}
+    f["early_ret_in_loop"] = {"k": "for", "c": None, "p": None, "b": {"k": "delay", "id": 0, "acts": [["add", 0, 1], ["set", 1, 0]], "body": {"k": "combine",
+        "a": {"k": "for", "c": {"id": 0, "acts": [], "e": ["lt", 0, 3]}, "p": None,
+              "b": {"k": "combine", "a": bind(["reg", 0], N, [["set", 1, 1]]), "b": brk}},
+        "b": {"k": "for", "c": {"id": 0, "acts": [], "e": ["ne", 1, 1]}, "p": None,
+              "b": {"k": "combine", "a": {"k": "retv", "v": ["const", 42]}, "b": brk}}}}}
+    f["late_ret_in_loop"] = {"k": "for", "c": {"id": 0, "acts": [["add", 0, 1]], "e": ["lt", 0, 9]}, "p": None,
+                             "b": bind(["reg", 0], {"k": "retv", "v": ["regplus", 0, 40]})}
     return {k: rtgen.assign_ids(rtgen.copy(v)) for k, v in f.items()}
 
 
